@@ -1,0 +1,35 @@
+//go:build verif
+
+// Contracts for package sm2, read by the verification framework in /verif.
+// Comments only; compiled only under the build tag "verif".
+
+package sm2
+
+//@ define P = 0xfffffffeffffffffffffffffffffffffffffffff00000000ffffffffffffffff
+//@ define N = 0xfffffffeffffffffffffffffffffffff7203df6b21c6052b53bbf40939d54123
+
+// facts about package-level variables established by package initialisation
+// (ground facts, checked by evaluating the initialised values: see DESIGN.md)
+//@ global_fact one: *one == 1
+//@ global_fact n: *n == N
+//@ global_fact nBytes: len(nBytes) == 32 && be(nBytes) == N
+//@ global_fact nMinus1Bytes: len(nMinus1Bytes) == 32 && be(nMinus1Bytes) == N - 1
+
+//@ func sm2.TestPrivateKey
+//@ mode int
+//@ ensures valid: len(priv) <= 32 ==> ((result == 0) == (1 <= be(priv) && be(priv) <= N - 2))
+//@ ensures long: len(priv) > 32 ==> result != 0
+//@ assigns nothing
+//@ loop 1
+//@ invariant zero: (acc == 0) == (be(priv[0:range_i]) == 0)
+
+//@ func sm2.DerivePublic
+//@ mode int
+//@ ensures ok: !nonnil(err) ==> len(priv) == 32 && !isinf(gmul(be(priv))) && len(x) == 32 && len(y) == 32 && be(x) == affx(gmul(be(priv))) && be(y) == affy(gmul(be(priv)))
+//@ ensures fail: nonnil(err) ==> x == nil && y == nil
+//@ assigns nothing
+
+//@ func sm2.CheckOnCurve
+//@ mode int
+//@ ensures val: result == (len(x) == 32 && len(y) == 32 && be(x) < P && be(y) < P && oncurve(be(x), be(y)))
+//@ assigns nothing
